@@ -280,6 +280,14 @@ def _job(arg):
     return out, n, obs
 
 
+def _enumerate(sc):
+    r, cases = V.tlc_cases("Peaks", sc, ["Laws", "Emit"], timeout=3000, workers=1)
+    r.trace = []
+    if r.ok:
+        r.out = ""           # the printed cases are parsed already; do not ship the text back through the pool
+    return r, cases
+
+
 def run(chk):
     quick = chk.tier == "quick"
     scopes = [dict(G=4 if quick else 5, NH=3, Kind="findpeaks"), dict(G=5 if quick else 7, NH=3, Kind="merge"), dict(G=7 if quick else 9, NH=4, Kind="merge2"),
@@ -287,8 +295,9 @@ def run(chk):
               dict(G=0, NH=5 if quick else 7, Kind="split"), dict(G=0, NH=4 if quick else 5, Kind="sumwf"),
               dict(G=0, NH=5 if quick else 6, Kind="widths"), dict(G=0, NH=5 if quick else 6, Kind="hdr")]
     split_obs = []
-    for sc in scopes:
-        r, cases = V.tlc_cases("Peaks", sc, ["Laws", "Emit"], timeout=3000, workers=1)
+    # the enumerations of all scopes run side by side (TLC prints the cases one by one: the larger scopes take minutes)
+    enum = V.pmap(_enumerate, scopes, procs=8, warm=False)
+    for sc, (r, cases) in zip(scopes, enum):
         chk.add_tlc(r, f"Peaks {sc}")
         if r.violated == "Laws":
             raise V.MachineryError("Peaks.tla: a conservation law fails in the model itself: " + r.out[-1500:])
